@@ -7,7 +7,7 @@ namespace Percival.Driver.Parsenum
 open Percival.Model Percival.Driver
 open Percival.Spec.Parsenum (IntTy CVal)
 open Percival.Model.Parsenum (Answer Outcome)
-open Percival.Model.Strtod (Fl)
+open Percival.Spec.Ieee (Fl)
 open Percival.Model.ParsenumFloat (FTy FOutcome)
 
 def intTy? : String → Option IntTy
